@@ -331,7 +331,7 @@ TASKS = {"exhaustive": task_exhaustive, "random": task_random}
 def plan(tier, seed):
     nsh = 15
     t = [("exhaustive", dict(shard=s, nshards=nsh)) for s in range(nsh)]
-    n, k = (1500, 8) if tier == "quick" else (7000, 15)
+    n, k = (1500, 8) if tier == "quick" else (100000, 15)
     t += [("random", dict(seed=seed, shard=s, n=n)) for s in range(k)]
     return t
 
